@@ -29,7 +29,7 @@ ASSUMPTIONS = [
     "Number formatting (Length.str, 12 decimals) is outside the decided part.",
 ]
 EXHAUSTIVE = True
-FLOORS = {"R11.1": 120, "R11.3": 10, "R11.4": 16}
+FLOORS = {"R11.1": 120, "R11.3": 10, "R11.4": 16, "R11.6": 2}
 
 ALIGNS = ["none"] + ["x%sY%s" % (a, b) for a in ("Min", "Mid", "Max") for b in ("Min", "Mid", "Max")]
 PARAMS = ["e_x", "e_y", "e_width", "e_height", "vb_x", "vb_y", "vb_width", "vb_height", "aspect"]
@@ -61,6 +61,8 @@ def run(ctx):
     ctx.rule("R11.3", "None guards and defaults")
     ctx.rule("R11.4", "output order and identity elision")
     ctx.rule("R11.5", "parameter plumbing")
+    ctx.rule("R11.6", "an incomplete viewBox counts as no viewBox")
+    incomplete_viewbox(ctx)
     fn = ctx.fn("Viewbox.viewbox_transform", "R11.1")
     have = [a.arg for a in fn.args.args]
     ctx.need(len(have) == 9, "R11.1", "viewbox_transform parameters changed: %s" % have)
@@ -104,7 +106,7 @@ def run(ctx):
         for i, p in enumerate(have[:8]):
             pe.bind(p, K(None) if none_param == i else atom(PARAMS[i]))
         pe.bind(have[8], K(aspect))
-        toks = aspect.split(" ") if aspect is not None else []
+        toks = aspect.split() if aspect is not None else []  # SVG: <align> [<meetOrSlice>], separated by white space
         align = toks[0] if toks else "xMidYMid"
         mos = toks[1] if len(toks) > 1 else "meet"
         want[0] = reference(align, mos)
@@ -189,7 +191,9 @@ def run(ctx):
         ctx.ob("R11.3", "viewbox_transform[None guard %s]" % p, ok, detail, fn.lineno,
                "a missing quantity must give the identity transform before any arithmetic touches it")
     # --- R11.1 / R11.3 defaults / R11.4 outputs: the whole function per preserveAspectRatio value
-    cases = [(None, "xMidYMid", "meet", "default align"), ("xMinYMax", "xMinYMax", "meet", "default meetOrSlice")]
+    cases = [(None, "xMidYMid", "meet", "default align"), ("xMinYMax", "xMinYMax", "meet", "default meetOrSlice"),
+             (" xMaxYMin  slice ", "xMaxYMin", "slice", "white space around and between the two words"),
+             ("xMinYMax ", "xMinYMax", "meet", "trailing blank"), ("xMidYMin\tslice", "xMidYMin", "slice", "tab between the two words")]
     for align in ALIGNS:
         for mos in ("meet", "slice", "other"):
             cases.append(("%s %s" % (align, mos), align, mos, None))
@@ -209,7 +213,7 @@ def run(ctx):
         if tag is not None:
             ok = full_order and all(isinstance(vals[k], RF) and vals[k] == want[k] for k in want)
             ctx.ob("R11.3", "viewbox_transform[%s]" % tag, ok, "preserveAspectRatio=%r gives %s" % (aspect, {k: str(v) for k, v in vals.items()}), fn.lineno,
-                   "default align is xMidYMid, default meetOrSlice is meet")
+                   "default align is xMidYMid, default meetOrSlice is meet; the two words are separated (and may be surrounded) by any white space")
             continue
         for var in ("scale_x", "scale_y", "translate_x", "translate_y"):
             g = vals.get(var)
@@ -265,6 +269,49 @@ def run(ctx):
     ctx.ob("R11.5", "Viewbox.set_viewbox[order]", m == {"x": 0, "y": 1, "width": 2, "height": 3}, str(m), sv.lineno, "viewBox is min-x min-y width height")
     incomplete_ok = any(isinstance(h.type, ast.Name) and h.type.id == "IndexError" for t in ast.walk(sv) if isinstance(t, ast.Try) for h in t.handlers)
     ctx.ob("R11.5", "Viewbox.set_viewbox[incomplete]", incomplete_ok, "", sv.lineno, "an incomplete viewBox must not raise (it yields the identity through the None guard)")
+
+
+def incomplete_viewbox(ctx):
+    """Viewbox.set_viewbox fills x, y, width, height one after the other and stops at the first missing number, so
+    `viewBox="0 0 10"` leaves an object whose height is None.  SVG.parse asks `s.viewbox is not None` before it takes the
+    viewBox's width/height as the size of the viewport and before it decides whether a nested svg is placed at its x/y.
+    Either the element never holds an incomplete Viewbox (its property_by_values resets it to None under a completeness
+    test), or every such read in SVG.parse is dominated by a test of the field it reads."""
+    from ..flow import dominated
+    from ..model import stmts_in
+
+    sv = ctx.fn("Viewbox.set_viewbox", "R11.6")
+    partial = any(isinstance(t, ast.Try) and sum(1 for st in t.body if isinstance(st, ast.Assign) and attr_chain(st.targets[0]) and attr_chain(st.targets[0])[0] == "self") >= 2
+                  and any(h.type is None or "IndexError" in ast.unparse(h.type) for h in t.handlers) for t in ast.walk(sv))
+    pv = ctx.fn("SVG.property_by_values", "R11.6")
+    normalised = False
+    for st in stmts_in(pv.body):
+        if isinstance(st, ast.If) and any(isinstance(a, ast.Assign) and attr_chain(a.targets[0]) == ["self", "viewbox"] and isinstance(a.value, ast.Constant) and a.value.value is None for a in st.body):
+            fields = {ch[-1] for c in ast.walk(st.test) if isinstance(c, ast.Compare) and isinstance(c.ops[0], ast.Is) for ch in [attr_chain(c.left)] if ch and ch[:2] == ["self", "viewbox"] and len(ch) == 3}
+            if {"width", "height"} <= fields:
+                normalised = True
+    ctx.ob("R11.6", "Viewbox.set_viewbox[premise: may stop after some fields]", True,
+           "set_viewbox may stop after some fields: %s; SVG.property_by_values drops an incomplete viewBox: %s" % (partial, normalised), sv.lineno,
+           "premise: can an svg element hold a Viewbox whose width/height are None?", sample=False)
+    parse = ctx.fn("SVG.parse", "R11.6")
+    reads = sorted((n for n in ast.walk(parse) if isinstance(n, ast.Attribute) and n.attr in ("width", "height") and isinstance(n.value, ast.Attribute) and n.value.attr == "viewbox"
+                    and isinstance(n.ctx, ast.Load)), key=lambda n: (n.lineno, n.col_offset))
+    ctx.need(len(reads) >= 2, "R11.6", "SVG.parse: reads of <svg>.viewbox.width/height not found")
+    bad = []
+    if partial and not normalised:
+        for n in reads:
+            src = ast.unparse(n)
+
+            def atom_test(test, positive, src=src):
+                if isinstance(test, ast.Compare) and len(test.ops) == 1 and ast.unparse(test.left) == src and isinstance(test.comparators[0], ast.Constant) and test.comparators[0].value is None \
+                        and isinstance(test.ops[0], (ast.Is, ast.IsNot)):
+                    return isinstance(test.ops[0], ast.IsNot) == positive
+                return False
+
+            if not dominated(n, parse, atom_test):
+                bad.append("%s line %d" % (src, n.lineno))
+    ctx.ob("R11.6", "SVG.parse[viewBox size read only from a complete viewBox]", not bad, "; ".join(bad[:4]) or "%d reads" % len(reads), parse.lineno,
+           "`viewBox=\"0 0 10\"` passes the `is not None` test: its missing height becomes the reference for every percentage below, and a nested svg is no longer placed at its x/y")
 
 
 def parse_output(node):
